@@ -30,12 +30,19 @@ Proof. destruct a; reflexivity. Qed.
 Lemma l_len_set_ch a c : l_len (set_ch a c) = Z.of_nat (length c).
 Proof. destruct a; reflexivity. Qed.
 
+Lemma split_last_p_length p : forall l l', split_last_p p l = Some l' -> length l' = S (length l).
+Proof.
+  induction l as [|c t IH]; intros l' H; cbn [split_last_p] in H; [discriminate|].
+  destruct (split_last_p p t) as [t'|] eqn:E.
+  - injection H as <-. cbn. now rewrite (IH _ eq_refl).
+  - destruct ((l_rep c >? 1) && p c); [|discriminate]. injection H as <-. reflexivity.
+Qed.
+
 Lemma split_last_length : forall l l', split_last l = Some l' -> length l' = S (length l).
 Proof.
-  induction l as [|c t IH]; intros l' H; cbn [split_last] in H; [discriminate|].
-  destruct (split_last t) as [t'|] eqn:E.
-  - injection H as <-. cbn. now rewrite (IH _ eq_refl).
-  - destruct (l_rep c >? 1); [|discriminate]. injection H as <-. reflexivity.
+  intros l l' H. unfold split_last in H. destruct (split_last_p (fun c => negb (l_vol c)) l) as [l1|] eqn:E.
+  - injection H as <-. eapply split_last_p_length; eauto.
+  - eapply split_last_p_length; eauto.
 Qed.
 
 Lemma split_until_no_fuel_error : forall k mn st, (Z.to_nat (mn - l_len st) <= k)%nat -> split_until k mn st <> Err EFuel.
@@ -57,14 +64,16 @@ Qed.
 
 Lemma partial_unroll_no_fuel st mn : partial_unroll st mn <> Some (Err EFuel).
 Proof.
-  unfold partial_unroll. destruct (_ >=? mn); [|discriminate]. intros H. injection H as H. revert H.
+  unfold partial_unroll. destruct (l_vol st); [discriminate|].
+  destruct (_ >=? mn); [|discriminate]. intros H. injection H as H. revert H.
   apply split_until_no_fuel_error. lia.
 Qed.
 
 Lemma partial_unroll_rep st mn st' : 0 < l_rep st -> partial_unroll st mn = Some (Ok st') ->
   (Z.to_nat (l_rep st') <= Z.to_nat (l_rep st))%nat.
 Proof.
-  unfold partial_unroll. intros Hr. destruct (_ >=? mn); [|discriminate]. intros H. injection H as H.
+  unfold partial_unroll. intros Hr. destruct (l_vol st); [discriminate|].
+  destruct (_ >=? mn); [|discriminate]. intros H. injection H as H.
   apply split_until_rep in H. rewrite H. destruct (sum_reps (l_ch st) <? mn); [|lia].
   destruct st as [r m w ch]. cbn [unroll_children l_rep] in *. lia.
 Qed.
@@ -119,7 +128,7 @@ Proof.
             (prep_measure b a < prep_measure (p :: bt) (cur :: rest'))%nat \/ other = PNext b a).
   { intros p bt rest' other H. destruct ((l_rep p >? 1) && (l_len cur + l_len p <? mx)) eqn:E; [|now right].
     left. injection H as <- <-. prep_simpl. lia. }
-  destruct (l_rep cur =? 1).
+  destruct ((l_rep cur =? 1) && negb (l_vol cur)).
   2:{ intros H. apply after_unroll_measure in H as [H|H]; [exact H|discriminate|exact Hr]. }
   destruct before as [|p bt].
   - destruct rest as [|nx rt].
@@ -438,7 +447,7 @@ Proof.
 Qed.
 
 Lemma can_merge_inv t : can_merge t = true ->
-  exists r m w cr cm cw cch, t = Loop r m w [Loop cr cm cw cch] /\ merge_child t = Loop (r * cr) (m || cm) cw cch.
+  exists r m w cr cm cw cch, t = Loop r m w [Loop cr cm cw cch] /\ merge_child t = Loop (r * cr) (merge_meta m cm) cw cch.
 Proof.
   destruct t as [r m w [|[cr cm cw cch] [|c2 ch]]]; unfold can_merge; cbn [l_ch]; try discriminate.
   intros _. repeat eexists.
@@ -680,7 +689,7 @@ Theorem compile_terminates c tbl prog : exists n1 n2 r, r <> Err EFuel /\
   forall k1 k2, compile_with (n1 + k1) (n2 + k2) c tbl prog = r.
 Proof.
   unfold compile_with.
-  set (prog1 := if (l_rep prog >? 1) || (depth prog =? 0) then Loop 1 false None [prog] else prog).
+  set (prog1 := if (l_rep prog >? 1) || l_vol prog || (depth prog =? 0) then Loop 1 plain None [prog] else prog).
   destruct (fab_total 2 [] (l_ch prog1)) as (n1 & r1 & Hr1 & Hf).
   assert (Hp : exists n2, forall ch1, r1 = Ok ch1 -> exists r2, r2 <> Err EFuel /\
              forall k2, prep (n2 + k2) (c_min c) (c_max c) [] ch1 = r2).
